@@ -135,3 +135,95 @@ Definition forward_of_cur (r : hreq) : hres (bytes * N * bool * bytes) :=
   | HErr => HErr
   | HOk p => HOk (hp_host p, hp_port p, hp_connect p, if hp_connect p then [] else build_forward_request_cur p)
   end.
+
+(* =====================================================================================================
+   Machine-checked witnesses: the pinned behaviour violates C17 (each replayed from corpus/C17/). *)
+From Coq Require Import String.
+
+Definition lg_req (m : string) (t : rtarget) (hh : option host_hdr) (body : string) : hreq :=
+  {| r_method := bs m; r_target := t; r_version := bs "HTTP/1.1"; r_before := []; r_host := hh;
+     r_after := [bs "X: y"]; r_body := bs body |}.
+Definition lg_host (name : string) (h : hostname) (p : option (list N)) : option host_hdr :=
+  Some {| hh_name := bs name; hh_pre := [32]; hh_auth := {| au_host := h; au_port := p |}; hh_post := [] |}.
+
+(* (1) `HOST:` spelling: a well-formed origin-form request is rejected ("Host header missing") *)
+Lemma C17_refuted_1_host_spelling :
+  exists r, wf_req r = true /\ parse_http_request_cur (render_head r) (r_body r) = HErr /\
+            exists p, parse_http_request (render_head r) (r_body r) = HOk p.
+Proof.
+  exists (lg_req "GET" (TOrigin (bs "/a")) (lg_host "HOST" (HName (bs "example.com")) None) "").
+  vm_compute. repeat split. eexists. reflexivity.
+Qed.
+
+(* (2) IPv6 literal: the rewritten Host header loses the brackets (`Host: ::1:8080`) *)
+Lemma C17_refuted_2_ipv6_brackets :
+  exists r p, wf_req r = true /\ is_connect_req r = false /\
+              parse_http_request_cur (render_head r) (r_body r) = HOk p /\
+              bytes_eqb (build_forward_request_cur p) (render_head (origin_form r)) = false /\
+              h_find (bs "Host: ::1:8080") (build_forward_request_cur p) <> None.
+Proof.
+  eexists (lg_req "GET" (TOrigin (bs "/a")) (lg_host "Host" (HV6 (bs "::1")) (Some [8; 0; 8; 0])) ""), _.
+  split; [vm_compute; reflexivity|]. split; [reflexivity|]. split; [vm_compute; reflexivity|].
+  split; [vm_compute; reflexivity|]. vm_compute. discriminate.
+Qed.
+
+(* (3) query without path: `http://example.com?q=1` opens the tunnel to host "example.com?q=1" *)
+Lemma C17_refuted_3_query_without_path :
+  exists r p, wf_req r = true /\ parse_http_request_cur (render_head r) (r_body r) = HOk p /\
+              spec_target r = Some (bs "example.com", 80) /\ hp_host p = bs "example.com?q=1" /\ hp_path p = bs "/".
+Proof.
+  eexists (lg_req "GET" (TAbsolute false (bs "http") {| au_host := HName (bs "example.com"); au_port := None |} (bs "?q=1"))
+                  None ""), _.
+  split; [vm_compute; reflexivity|]. split; [vm_compute; reflexivity|]. repeat split.
+Qed.
+
+(* (4) upper-case scheme: `HTTP://example.com/a` is treated as an origin-form path and routed by the Host header *)
+Lemma C17_refuted_4_scheme_case :
+  exists r p, wf_req r = true /\ parse_http_request_cur (render_head r) (r_body r) = HOk p /\
+              spec_target r = Some (bs "example.com", 80) /\ hp_host p = bs "other" /\
+              hp_path p = bs "/HTTP://example.com/a".
+Proof.
+  eexists (lg_req "GET" (TAbsolute false (bs "HTTP") {| au_host := HName (bs "example.com"); au_port := None |} (bs "/a"))
+                  (lg_host "Host" (HName (bs "other")) None) ""), _.
+  split; [vm_compute; reflexivity|]. split; [vm_compute; reflexivity|]. repeat split.
+Qed.
+
+(* (5) bytes that arrive together with a CONNECT header are never sent into the tunnel *)
+Lemma C17_refuted_5_connect_early_bytes :
+  exists r, wf_req r = true /\ is_connect_req r = true /\ r_body r <> [] /\
+            handle_cur [render r] false true = [EvOpen (bs "example.com") 443; EvReply 200] /\
+            sent_bytes (handle [render r] false true) = r_body r.
+Proof.
+  exists (lg_req "CONNECT" (TAuthority {| au_host := HName (bs "example.com"); au_port := Some [4; 4; 3] |}) None "EARLY").
+  vm_compute. repeat split. discriminate.
+Qed.
+
+(* (6) the same bytes (a 65530-byte header block followed by 1000 body bytes) are accepted when the reads are
+   aligned to 1024 and rejected when a first read of 100 bytes mis-aligns them *)
+Definition lg_big : bytes :=
+  bs "GET / HTTP/1.1" ++ [13; 10] ++ bs "Host: a" ++ [13; 10] ++ bs "X: " ++ repeat 112 (N.to_nat 65498)
+  ++ [13; 10; 13; 10] ++ repeat 98 (N.to_nat 1000).
+
+Definition lg_ok_with (r : hrh) (h : bytes) : bool :=
+  match r with RhOk h' _ _ => bytes_eqb h' h | _ => false end.
+Definition lg_too_large (r : hrh) : bool := match r with RhTooLarge => true | _ => false end.
+
+Lemma C17_refuted_6_limit_depends_on_chunking :
+  let aligned := rechunk 1024 lg_big in
+  let misaligned := takeN 100 lg_big :: rechunk 1024 (dropN 100 lg_big) in
+  (bytes_eqb (List.concat aligned) lg_big && bytes_eqb (List.concat misaligned) lg_big
+   && match find_header_end lg_big with Some e => e =? 65530 | None => false end
+   && lg_ok_with (read_header_cur [] aligned false) (takeN 65530 lg_big)
+   && lg_too_large (read_header_cur [] misaligned false)
+   && lg_ok_with (read_header [] misaligned false) (takeN 65530 lg_big)) = true.
+Proof. vm_compute. reflexivity. Qed.
+
+(* (7) an empty port (`example.com:`) keeps the colon in the host name *)
+Lemma C17_refuted_7_empty_port :
+  exists r p, wf_req r = true /\ parse_http_request_cur (render_head r) (r_body r) = HOk p /\
+              spec_target r = Some (bs "example.com", 80) /\ hp_host p = bs "example.com:".
+Proof.
+  eexists (lg_req "GET" (TAbsolute false (bs "http") {| au_host := HName (bs "example.com"); au_port := Some [] |} (bs "/a"))
+                  None ""), _.
+  split; [vm_compute; reflexivity|]. split; [vm_compute; reflexivity|]. repeat split.
+Qed.
